@@ -70,10 +70,20 @@ class Engine:
                 last = q.split(".")[-1]
                 if f.cls is None and last.startswith("_") and not last.startswith("__"):
                     out.add(q)
+                elif f.cls is None and getattr(f, "module_internal", False):
+                    out.add(q)  # a helper that lives in a private module and is not re-exported
                 elif f.cls is not None and f.cls.startswith("_") and not f.cls.startswith("__"):
                     out.add(q)  # methods of a private class (a record / book-keeping object)
             c[short] = frozenset(out)
         return c[short]
+
+    def internal_helpers(self):
+        """helpers that live in a private module and are not re-exported by a public one: internal
+        glue of a module split, analysed in place wherever they are called"""
+        c = self.__dict__.get("_internal")
+        if c is None:
+            c = self.__dict__["_internal"] = frozenset(q for q, f in self.prog.funcs.items() if getattr(f, "module_internal", False) and f.parent is None and f.cls is None and q == f.qualname)
+        return c
 
     def repo_call(self, qualname, *args, clsbind=None):
         """the term of a call of an anchor function (registers it for expand())"""
@@ -127,7 +137,9 @@ class Engine:
         if m is not None:
             vals = m.consts.get(name, [])
             if len(vals) == 1:
-                t = self.static_term(m, vals[0])
+                # (a constant of a private module that is analysed as part of this one is
+                # evaluated in the namespace it was written in)
+                t = self.static_term(m.__dict__.get("const_origin", {}).get(name, m), vals[0])
         self._const_lit[dotted] = t
         return t
 
@@ -156,7 +168,7 @@ class Engine:
                 # an immutable record built once at import time: a NamedTuple instance, a
                 # functools.partial, an operator.itemgetter - the value itself is used
                 cache[key] = None  # (guards against cycles while evaluating)
-                t = self.static_term(m, vals[0])
+                t = self.static_term(m.__dict__.get("const_origin", {}).get(name, m), vals[0])
                 if t is not None and self._immutable_value(t):
                     out = t
         cache[key] = out
